@@ -1,4 +1,4 @@
-use crate::utils::{from_hex, to_hex};
+use crate::utils::{from_coinbase_hex, from_hex, to_coinbase_hex, to_hex};
 use crate::OpCodes;
 use serde::*;
 use strum_macros::Display;
@@ -10,5 +10,5 @@ pub enum ScriptBit {
     If { code: OpCodes, pass: Vec<ScriptBit>, fail: Option<Vec<ScriptBit>> },
     Push(#[serde(serialize_with = "to_hex", deserialize_with = "from_hex")] Vec<u8>),
     PushData(OpCodes, #[serde(serialize_with = "to_hex", deserialize_with = "from_hex")] Vec<u8>),
-    Coinbase(#[serde(serialize_with = "to_hex", deserialize_with = "from_hex")] Vec<u8>),
+    Coinbase(#[serde(serialize_with = "to_coinbase_hex", deserialize_with = "from_coinbase_hex")] Vec<u8>),
 }
